@@ -242,6 +242,32 @@ def run(ctx):
         if arr.shape != lam.shape or not np.allclose(arr, sc, rtol=1e-14, atol=0):
             prob(f"{name}: array wavelengths {lam.tolist()} give {arr.tolist()} but scalars give {sc.tolist()}",
                  {"model": name, "wavelengths": lam.tolist()}, "C19/zemax-first-element" if (name == "SellmeierZemax" and lam.ndim == 1 and np.allclose(arr, sc[0])) else None)
+    # SellmeierZemax against the published formula, written out independently for scalars, over temperature / pressure configurations
+    # (vacuum, equal and unequal pressures, equal and unequal temperatures)
+    def zemax_formula(lam, T, Tref, Pref, Pobs, Bc, Cc, Dc, Ec):
+        T, Tref = T - 273.15, Tref - 273.15
+        dT = T - Tref
+        nref = 1.0 + (6432.8 + 2949810.0 * lam ** 2 / (146.0 * lam ** 2 - 1.0) + 5540.0 * lam ** 2 / (41.0 * lam ** 2 - 1.0)) * 1e-8
+        na_obs = 1.0 + (nref - 1.0) * Pobs / (1.0 + (T - 15.0) * 3.4785e-3)
+        na_ref = 1.0 + (nref - 1.0) * Pref / (1.0 + (Tref - 15.0) * 3.4785e-3)
+        lr = lam * na_obs / na_ref
+        nrel = math.sqrt(1.0 + sum(b * lr * lr / (lr * lr - c) for b, c in zip(Bc, Cc)))
+        dn = 0.5 * (nrel ** 2 - 1.0) / nrel * (Dc[0] * dT + Dc[1] * dT ** 2 + Dc[2] * dT ** 3 + (Ec[0] * dT + Ec[1] * dT ** 2) / (lr ** 2 - Ec[2] ** 2))
+        return (nrel * na_ref + dn) / na_obs
+    Bz, Cz = [0.58339748, 0.46085267, 3.8915394], [0.00252643, 0.010078333, 1200.556]
+    Dz, Ez = [-2.66e-05, 1e-9, 0.0], [1e-7, 1e-9, 0.2]
+    for (T_, Tr_, Pr_, Po_) in ((65.0, 35.0, 0.9, 1.1), (65.0, 35.0, 1.0, 1.0), (310.0, 290.0, 0.8, 0.8), (300.0, 300.0, 1.0, 1.0), (40.0, 35.0, 0.0, 0.0),
+                                (293.0, 288.0, 1.0, 0.0), (rng.uniform(30, 320), rng.uniform(30, 320), rng.uniform(0, 1.2), rng.uniform(0, 1.2))):
+        mz = sp.SellmeierZemax(T_, Tr_, Pr_, Po_, Bz, Cz, Dz, Ez)
+        for lam in (0.6, 1.0, 2.0, 3.5):
+            want = zemax_formula(lam, T_, Tr_, Pr_, Po_, Bz, Cz, Dz, Ez)
+            got = float(mz(lam))
+            ctx.case(key=("zemax-cfg", T_, Tr_, Pr_, Po_, lam), nontrivial=True, kind="zemax/configuration",
+                     sample={"temperature": T_, "ref_temperature": Tr_, "ref_pressure": Pr_, "pressure": Po_, "wavelength": lam})
+            if abs(got - want) > 1e-13 * abs(want):
+                prob(f"SellmeierZemax(T={T_}, Tref={Tr_}, Pref={Pr_}, P={Po_}) at {lam} um gives {got!r}, the published formula gives {want!r}",
+                     {"temperature": T_, "ref_temperature": Tr_, "ref_pressure": Pr_, "pressure": Po_, "wavelength": lam})
+                break
     B, C = P["B_coef"], P["C_coef"]
     for x in (0.7, 1.0, 2.0, 3.5):
         want = math.sqrt(1 + sum(b * x * x / (x * x - c) for b, c in zip(B, C)))
